@@ -488,10 +488,44 @@ func opConc(a []*sx) string {
 	close(start)
 	done := make(chan struct{})
 	go func() { wg.Wait(); close(done) }()
-	select {
-	case <-done:
-	case <-time.After(60 * time.Second):
-		return "(deadlock)"
+	// deadlock watchdog: after 60 s look at the goroutines' states; only goroutines parked in a
+	// synchronisation primitive count as deadlocked, running or runnable ones are merely slow
+	// (loaded machine, race detector) and get more time
+	for round := 0; ; round++ {
+		finished := false
+		select {
+		case <-done:
+			finished = true
+		case <-time.After(60 * time.Second):
+		}
+		if finished {
+			break
+		}
+		buf := make([]byte, 1<<20)
+		buf = buf[:runtime.Stack(buf, true)]
+		blocked, active := 0, 0
+		for _, g := range strings.Split(string(buf), "\n\n") {
+			if !strings.Contains(g, "main.opConc.func1") {
+				continue
+			}
+			hdr := g
+			if i := strings.Index(g, "\n"); i >= 0 {
+				hdr = g[:i]
+			}
+			if strings.Contains(hdr, "semacquire") || strings.Contains(hdr, "sync.Mutex") || strings.Contains(hdr, "sync.RWMutex") ||
+				strings.Contains(hdr, "chan receive") || strings.Contains(hdr, "chan send") || strings.Contains(hdr, "select") ||
+				strings.Contains(hdr, "sync.Cond") || strings.Contains(hdr, "sync.WaitGroup") {
+				blocked++
+			} else {
+				active++
+			}
+		}
+		if blocked > 0 && active == 0 {
+			return "(deadlock)"
+		}
+		if round >= 9 {
+			return "(slow)"
+		}
 	}
 	var sb strings.Builder
 	sb.WriteString("(ok")
